@@ -30,6 +30,9 @@
    proto  bpPool *BinaryProtocol proto/binary/binary.go:49-57,115-134  Reset (binary.go:99-102)
    bitmapPool *RequiresBitmap   thrift/utils.go:38-43,94-103           len:=0, memory NOT cleared (utils.go:93,100)
    j2tStackPool *J2TStateMachine internal/native/types/types.go:313-338 SP:=0, Reqs/Key/Field caches len:=0; VT, JT dirty
+                                (finding 1203: GrowReqCache/GrowKeyCache, types.go:382-394, reallocate a cache while states of the running call
+                                 keep RAW pointers into the old array, native/thrift.c:239 - in the model `Grow` makes the old array garbage,
+                                 which is only sound if nobody uses it any more; the garbage collector recycles it: harness case 1205)
    tsmPool *TStateMachine       internal/native/types/types.go:426-441 nothing reset (pure scratch stack)
    stackPool *StateMachine      internal/native/types/types.go:185-197 nothing reset
    vuPool *visitorUserNode      conv/j2p/decode.go:31-78               reset(): sp, p:=nil, stk entries, descs, opts
